@@ -12,6 +12,14 @@ def checkers_for(prop, opts):
         'C07': [checkers.C07NoDeadEnd],
         'C12': [checkers.C12Compatible, checkers.C12Unique],
         'C19': [checkers.C19Documented],
+        'C04': [checkers.C04Attributes],
+        'C10': [checkers.C10Snapshot],
+        'C11': [checkers.C11Rebuild],
+        'C13': [checkers.C13Others],
+        'C14': [checkers.C14Copy],
+        'C15': [checkers.C15Surfaces],
+        'C16': [checkers.C16Serialise],
+        'C18': [checkers.C18Unchecked],
     }
     for k in table.get(prop, []):
         c.append(k())
@@ -98,3 +106,572 @@ def prog_unique_permutation(kit, actor, doc, elem, cfg):
 
 def _brief(cfg):
     return {k: v for k, v in cfg.items() if k != 'weights'}
+
+
+# ---------------------------------------------------------------------------------- C07: additions only
+def wl_C07(rng, w, cfg, index):
+    cfg = dict(cfg)
+    wts = dict(cfg.get('weights') or {})
+    for k in ('remove', 'replace', 'replace_other', 'fwd', 'dot_none', 'remove_foreign', 'to_string_ic', 'check_ic'):
+        wts[k] = 0.0
+    wts['add_bad'] = 2.5
+    cfg['weights'] = wts
+    cfg['p_ic'] = 0.0
+    cfg['shape'] = rng.choice(['valid_permuted', 'valid_perturbed', 'uniform', 'fill_max', 'alternate_choice', 'uniform'])
+    return wl_history(rng, w, cfg, index)
+
+
+# ---------------------------------------------------------------------------------- C10: failing calls + erasure twin
+def wl_C10(rng, w, cfg, index):
+    cfg = dict(cfg)
+    wts = dict(cfg.get('weights') or {})
+    wts.update({'add_bad': 3.0, 'add_foreign': 0.8, 'attr_bad': 0.8, 'value_bad': 0.6, 'remove_foreign': 0.6, 'fwd': 1.0,
+                'to_string': 1.5, 'check': 0.6, 'to_string_ic': 0.0, 'check_ic': 0.0})
+    cfg['weights'] = wts
+    cfg['p_ic'] = 0.0
+    kit = Kit(rng, w, cfg)
+    elem = gen.pick_elements(rng, 1, index)[0]
+    prog = with_obs_after_failures(kit, gen.prog_history(kit, 0, 'd0', elem, cfg), 'd0')
+    return prog, {'elements': [elem], 'cfg': _brief(cfg)}
+
+
+def accept_symbols(kit, node, k=5):
+    m = spec.model_for_element(node.name)
+    if m is None:
+        return []
+    present = sorted({c.name for c in node.children})
+    rest = [a for a in m.alpha if a not in present]
+    kit.rng.shuffle(rest)
+    return (present + rest)[:k]
+
+
+def with_obs_after_failures(kit, prog, doc, every_fail_p=0.7):
+    """Wrap a program: after a failing call (decided by looking at the event just produced) observe the
+    focus document in nested forks; observe at the end as well."""
+    w = kit.w
+    rng = kit.rng
+    for op in prog:
+        yield op
+        ev = w.events[-1] if w.events else None
+        if ev and ev['r'] == 'exc' and op['op'] != 'OBS' and 'p' in op and rng.random() < every_fail_p:
+            node = w.node(op['p'])
+            if node is not None:
+                yield {'op': 'OBS', 'p': op['p'], 'accept': accept_symbols(kit, node), 'deep': False}
+    root = w.docs.get(doc)
+    if root is not None:
+        yield {'op': 'OBS', 'p': [doc], 'accept': accept_symbols(kit, root), 'deep': True}
+
+
+# ---------------------------------------------------------------------------------- C11: removals
+def wl_C11(rng, w, cfg, index):
+    cfg = dict(cfg)
+    wts = dict(cfg.get('weights') or {})
+    wts.update({'remove': 5.0, 'dot_none': 1.5, 'add': 6.0})
+    cfg['weights'] = wts
+    cfg['shape'] = rng.choice(['add_remove_cycles', 'valid_inorder', 'valid_permuted', 'uniform', 'alternate_choice', 'fill_max'])
+    return wl_history(rng, w, cfg, index)
+
+
+# ---------------------------------------------------------------------------------- C13: isolation
+CANARY = [
+    {'op': 'NEW', 'a': 9, 'doc': 'canary0', 'c': {'name': 'note', 'value': None, 'attrs': {}, 'xsd_check': True}},
+    {'op': 'ADD', 'a': 9, 'p': ['canary0'], 'c': {'name': 'pitch', 'value': None, 'attrs': {}, 'xsd_check': True,
+                                                   'kids': [{'name': 'step', 'value': 'G', 'attrs': {}, 'xsd_check': True},
+                                                            {'name': 'octave', 'value': 4, 'attrs': {}, 'xsd_check': True}]}},
+    {'op': 'ADD', 'a': 9, 'p': ['canary0'], 'c': {'name': 'duration', 'value': 2, 'attrs': {}, 'xsd_check': True}},
+    {'op': 'ATTR_SET', 'a': 9, 'p': ['canary0'], 'name': 'default_x', 'value': 10},
+    {'op': 'TO_STRING', 'a': 9, 'p': ['canary0'], 'ic': False},
+    {'op': 'ADD', 'a': 9, 'p': ['canary0'], 'c': {'name': 'rest', 'value': None, 'attrs': {}, 'xsd_check': True}},
+    {'op': 'OBS', 'p': ['canary0'], 'accept': ['grace', 'tie', 'voice', 'rest', 'chord'], 'deep': True},
+]
+
+
+def wl_C13(rng, w, cfg, index):
+    cfg = dict(cfg)
+    cfg['p_ic'] = rng.choice([0.0, 0.3])
+    kit = Kit(rng, w, cfg)
+    nact = rng.choice([2, 2, 3, 4])
+    elems = gen.pick_elements(rng, nact, index)
+    if rng.random() < 0.5:
+        elems = [elems[0]] * nact          # same-class instances alive together
+    elif rng.random() < 0.5:
+        elems[1] = elems[0]
+    progs = []
+    for a in range(nact):
+        c = dict(cfg)
+        c['nsteps'] = rng.randint(2, 8)
+        progs.append(gen.prog_history(kit, a, 'd%d' % a, elems[a], c))
+    if rng.random() < 0.4:
+        progs.append(prog_copier(kit, nact, 'd0', 'd%d' % nact, cfg))
+
+    def program():
+        if rng.random() < 0.5:
+            # proc.warm(prefix): an unrelated program first in the same process
+            pre = gen.prog_history(kit, 8, 'warm', rng.choice(spec.ELEMENT_CONTENT_ELEMENTS), dict(cfg, nsteps=3))
+            w.count('fault.proc.warm')
+            yield from pre
+        sched = gen.interleave(rng, progs)
+        order = []
+        for op in sched:
+            order.append(op.get('a'))
+            yield op
+        w.interleaving = ''.join(str(x) for x in order)
+        for d in sorted(w.docs):
+            root = w.docs[d]
+            if d != 'warm':
+                yield {'op': 'OBS', 'p': [d], 'accept': accept_symbols(kit, root, 4), 'deep': True}
+        for op in CANARY:
+            yield dict(op)
+    return program(), {'elements': elems, 'actors': nact}
+
+
+def prog_copier(kit, actor, src, dst, cfg):
+    """An actor that deep-copies another actor's document at some point and then mutates the copy."""
+    rng = kit.rng
+    w = kit.w
+    for _ in range(rng.randint(1, 6)):
+        yield {'op': 'READ', 'a': actor, 'p': [src], 'which': 'children_unordered'}
+    if src not in w.docs:
+        return
+    yield {'op': 'DEEPCOPY', 'a': actor, 'p': [src], 'doc': dst}
+    root = w.docs.get(dst)
+    if root is None:
+        return
+    m = spec.model_for_element(root.name)
+    sub = gen.sub_alphabet(rng, m) if m else []
+    wts = dict(add=5, remove=2, replace=1, to_string=1, attr=1, dot_value=0.5, dot_none=0.5, complete=0.5, check=0.3)
+    for _ in range(rng.randint(2, 7)):
+        yield from gen._one_random(kit, actor, dst, root, sub, wts, cfg)
+
+
+# ---------------------------------------------------------------------------------- C14: deep copies
+def wl_C14(rng, w, cfg, index):
+    cfg = dict(cfg)
+    cfg['p_attrs'] = rng.choice([0.3, 0.6])
+    cfg['p_ic'] = 0.0
+    wts = dict(cfg.get('weights') or {})
+    wts.update({'attr': 2.0, 'dot_value': 1.0, 'deep': 1.0, 'to_string_ic': 0.0, 'check_ic': 0.0})
+    cfg['weights'] = wts
+    cfg['p_final_serialise'] = 0.0
+    kit = Kit(rng, w, cfg)
+    elem = gen.pick_elements(rng, 1, index)[0]
+    checked = rng.random() < 0.85
+
+    def program():
+        c = dict(cfg, nsteps=rng.randint(2, 9), root_checked=checked)
+        yield from gen.prog_history(kit, 0, 'd0', elem, c)
+        root = w.docs.get('d0')
+        if root is None:
+            return
+        if rng.random() < 0.6:
+            yield from gen.complete(kit, 0, ['d0'], root)
+        # copy the whole document or a subtree
+        src = ['d0']
+        subs = [n for n in root.walk() if n is not root and n.children]
+        if subs and rng.random() < 0.25:
+            src = w.path_of(rng.choice(subs))
+        yield {'op': 'DEEPCOPY', 'a': 1, 'p': src, 'doc': 'd1'}
+        cp = w.docs.get('d1')
+        if cp is None:
+            return
+        # two owners keep mutating, interleaved
+        m0 = spec.model_for_element(root.name)
+        m1 = spec.model_for_element(cp.name)
+        wts2 = dict(add=4, remove=2, replace=1, attr=2, dot_value=1, dot_none=0.5, to_string=1, value_bad=0.2, add_bad=0.5)
+
+        def owner(actor, doc, node, m):
+            sub = gen.sub_alphabet(rng, m) if m else []
+            for _ in range(rng.randint(1, 5)):
+                yield from gen._one_random(kit, actor, doc, node, sub, wts2, cfg)
+        sched = gen.interleave(rng, [owner(0, 'd0', root, m0), owner(1, 'd1', cp, m1)])
+        order = []
+        for op in sched:
+            order.append(op.get('a'))
+            yield op
+        w.interleaving = ''.join(str(x) for x in order)
+        yield {'op': 'OBS', 'p': ['d0'], 'accept': accept_symbols(kit, root, 3), 'deep': True}
+        yield {'op': 'OBS', 'p': ['d1'], 'accept': accept_symbols(kit, cp, 3), 'deep': True}
+    return program(), {'elements': [elem], 'root_checked': checked}
+
+
+# ---------------------------------------------------------------------------------- C16: reader vs mutator on one tree
+_CHARS = ['<', '>', '&', '"', "'", ']]>', '\t', '\n', '  ', ' ', '\U0001F3B5', 'é', ' ', '<!--', '&amp;', '<a b="c">',
+          'é', '中', ' x', 'x ', '&#10;', '%', '\\', '{}', '\x7f', '\u0085', '�', '퟿', '']
+
+
+def tricky_string(rng):
+    n = rng.randint(1, 5)
+    parts = []
+    for _ in range(n):
+        if rng.random() < 0.6:
+            parts.append(rng.choice(_CHARS))
+        else:
+            parts.append(''.join(rng.choice('abcXYZ 019.-_') for _ in range(rng.randint(1, 5))))
+    return ''.join(parts)
+
+
+def string_positions():
+    """Elements / attributes whose simple type admits arbitrary strings (xs:string / xs:token without
+    enumeration or pattern)."""
+    global _STRPOS
+    try:
+        return _STRPOS
+    except NameError:
+        pass
+    els = []
+    for n in spec.ALL_ELEMENTS:
+        t = spec.ELEM_TYPE[n]
+        if spec.type_kind(t) == 'simple':
+            sc = spec.simple_content_type(t)
+            if sc and spec.simple_info(sc)['kind'] in ('string', 'token'):
+                els.append(n)
+    _STRPOS = els
+    return els
+
+
+def wl_C16(rng, w, cfg, index):
+    cfg = dict(cfg)
+    ic_reads = rng.random() < 0.4
+    cfg['p_ic'] = 0.0
+    wts = dict(cfg.get('weights') or {})
+    wts.update({'to_string': 0.3, 'to_string_ic': 0.0, 'check': 0.0, 'check_ic': 0.0, 'read': 0.0, 'deep': 1.0})
+    cfg['weights'] = wts
+    cfg['p_final_serialise'] = 1.0
+    kit = Kit(rng, w, cfg)
+    strpos = string_positions()
+    # prefer parents that can hold a string-valued child
+    cands = [e for e in spec.ELEMENT_CONTENT_ELEMENTS if any(s in spec.model_for_element(e).alpha for s in strpos)]
+    elem = cands[index % len(cands)] if rng.random() < 0.7 else gen.pick_elements(rng, 1, index)[0]
+    model = spec.model_for_element(elem)
+
+    def mutator():
+        base = gen.prog_history(kit, 0, 'd0', elem, dict(cfg, nsteps=rng.randint(2, 8)))
+        for op in base:
+            # sprinkle tricky strings into string-typed children and token/string attributes
+            if op['op'] == 'ADD' and op['c']['name'] in strpos and rng.random() < 0.6:
+                op = dict(op)
+                op['c'] = dict(op['c'], value=tricky_string(rng))
+            yield op
+            root = w.docs.get('d0')
+            if root is not None and rng.random() < 0.25:
+                opts = [s for s in model.alpha if s in strpos]
+                comp = kit.compatible(root, opts)
+                if comp:
+                    yield {'op': 'ADD', 'a': 0, 'p': ['d0'], 'c': dict(kit.childspec(rng.choice(comp), opaque=True),
+                                                                       value=tricky_string(rng))}
+            if root is not None and rng.random() < 0.15:
+                table = [(a, d) for a, d in spec.attributes_of_element(root.name).items()
+                         if spec.simple_info(d['type'])['kind'] in ('string', 'token') and gen._attr_usable(a)]
+                if table:
+                    a, d = rng.choice(table)
+                    yield {'op': 'ATTR_SET', 'a': 0, 'p': ['d0'], 'name': spec.py_attr_name(a), 'value': tricky_string(rng)}
+
+    def reader():
+        for _ in range(rng.randint(2, 10)):
+            root = w.docs.get('d0')
+            if root is None:
+                yield {'op': 'FAULT', 'kind': 'fs.clear', 'reader': True}
+                continue
+            nodes = [n for n in root.walk()]
+            node = rng.choice(nodes) if rng.random() < 0.3 else root
+            path = w.path_of(node) or ['d0']
+            r = rng.random()
+            if r < 0.45:
+                yield {'op': 'TO_STRING', 'a': 1, 'p': path, 'ic': ic_reads and rng.random() < 0.5, 'reader': True,
+                       'twice': rng.random() < 0.5, 'subtree': rng.randrange(4) if rng.random() < 0.4 else None,
+                       'fault': 'obs.interpose'}
+            elif r < 0.6:
+                yield {'op': 'CHECK', 'a': 1, 'p': path, 'ic': ic_reads and rng.random() < 0.5, 'reader': True, 'fault': 'obs.interpose'}
+            elif r < 0.8:
+                which = rng.choice(['children_ordered', 'children_unordered', 'find_child', 'find_children',
+                                    'possible_children_names', 'get_parent', 'et_xml_element', 'attributes'])
+                op = {'op': 'READ', 'a': 1, 'p': path, 'which': which, 'reader': True, 'fault': 'obs.interpose'}
+                if which.startswith('find'):
+                    op['arg'] = rng.choice(model.alpha)
+                yield op
+            elif r < 0.9:
+                yield {'op': 'DOT_GET', 'a': 1, 'p': path, 'name': rng.choice(model.alpha), 'reader': True, 'fault': 'obs.interpose'}
+            else:
+                yield {'op': 'ATTR_GET', 'a': 1, 'p': path, 'name': rng.choice(['id', 'default_x', 'color', 'type', 'number']),
+                       'reader': True, 'fault': 'obs.interpose'}
+
+    def program():
+        order = []
+        for op in gen.interleave(rng, [mutator(), reader()], weights=[1.0, rng.choice([0.5, 1.0, 2.0])]):
+            order.append(op.get('a', 1))
+            if op['op'] == 'FAULT':
+                continue
+            yield op
+        w.interleaving = ''.join(str(x) for x in order)
+        root = w.docs.get('d0')
+        if root is not None:
+            yield {'op': 'OBS', 'p': ['d0'], 'accept': accept_symbols(kit, root, 4), 'deep': True}
+    return program(), {'elements': [elem], 'ic_reads': ic_reads}
+
+
+# ---------------------------------------------------------------------------------- C04: attribute interface
+_RESERVED = ['name', 'level', 'content', 'attributes', 'type_', 'value_', 'compact_repr', 'is_leaf']
+
+
+def wl_C04(rng, w, cfg, index):
+    kit = Kit(rng, w, cfg)
+    # every element class in turn (441), so that the thorough tier offers every declared pair
+    elem = spec.ALL_ELEMENTS[index % len(spec.ALL_ELEMENTS)]
+    table = list(spec.attributes_of_element(elem).items())
+
+    def value_for(a, d, want_valid=True):
+        g, b = spec.exemplars(d['type'])
+        if d.get('fixed') is not None:
+            g = [d['fixed']]
+        pool = g if want_valid else b
+        return rng.choice(pool) if pool else None
+
+    def program():
+        cs = {'name': elem, 'value': gen.default_value(elem), 'attrs': {}, 'xsd_check': True}
+        via_ctor = rng.random() < 0.4 and table
+        if via_ctor:
+            a, d = rng.choice(table)
+            r = rng.random()
+            if r < 0.7:
+                v = value_for(a, d, True)
+                if v is not None:
+                    cs['attrs'] = {spec.py_attr_name(a): v}
+            elif r < 0.85:
+                v = value_for(a, d, False)
+                if v is not None:
+                    cs['attrs'] = {spec.py_attr_name(a): v}
+            else:
+                cs['attrs'] = {rng.choice(['bogus', 'colour', 'no_such']): 'x'}
+        yield {'op': 'NEW', 'a': 0, 'doc': 'd0', 'c': cs, 'c04': True}
+        if 'd0' not in w.docs:
+            cs2 = dict(cs, attrs={})
+            yield {'op': 'NEW', 'a': 0, 'doc': 'd0', 'c': cs2}
+            if 'd0' not in w.docs:
+                return
+        root = w.docs['d0']
+        order = list(table)
+        rng.shuffle(order)
+        # in the thorough tier offer every declared attribute of this element once (valid value)
+        k_all = len(order) if cfg.get('all_attrs') else min(len(order), rng.randint(1, 5))
+        for a, d in order[:k_all]:
+            v = value_for(a, d, True)
+            if v is not None:
+                yield {'op': 'ATTR_SET', 'a': 0, 'p': ['d0'], 'name': spec.py_attr_name(a), 'value': v}
+            r = rng.random()
+            if r < 0.2:
+                v = value_for(a, d, False)
+                if v is not None:
+                    yield {'op': 'ATTR_SET', 'a': 0, 'p': ['d0'], 'name': spec.py_attr_name(a), 'value': v, 'fault': 'rej.bad_attr_value'}
+            elif r < 0.35:
+                yield {'op': 'ATTR_SET', 'a': 0, 'p': ['d0'], 'name': spec.py_attr_name(a), 'value': None}
+            elif r < 0.5:
+                v = value_for(a, d, True)
+                if v is not None:
+                    yield {'op': 'ATTR_SET', 'a': 0, 'p': ['d0'], 'name': spec.py_attr_name(a), 'value': v}   # overwrite
+            elif r < 0.6:
+                yield {'op': 'ATTR_GET', 'a': 0, 'p': ['d0'], 'name': spec.py_attr_name(a)}
+            if rng.random() < 0.15:
+                yield {'op': 'TO_STRING', 'a': 0, 'p': ['d0'], 'ic': False}
+        # undeclared names: another type's attribute, a misspelling, Python-side reserved names
+        for _ in range(rng.randint(0, 2)):
+            other = spec.attributes_of_element(rng.choice(spec.ALL_ELEMENTS))
+            cand = [x for x in other if x not in dict(table) and ':' not in x]
+            name = rng.choice(cand) if (cand and rng.random() < 0.6) else rng.choice(['colour', 'defaultx', 'bogus', 'level', 'content'])
+            if gen_schema_name(elem, name.replace('-', '_')) is None:
+                yield {'op': 'ATTR_SET', 'a': 0, 'p': ['d0'], 'name': name.replace('-', '_'), 'value': 'x', 'fault': 'rej.bad_attr_name'}
+        # complete children so that serialisation can succeed, then serialise
+        m = spec.model_for_element(elem)
+        if m is not None:
+            for x in (m.missing([]) or []):
+                yield {'op': 'ADD', 'a': 0, 'p': ['d0'], 'c': gen.default_childspec(x)}
+        if rng.random() < 0.5:
+            for a, d in table:
+                if d['required'] and a not in root.attrs:
+                    v = value_for(a, d, True)
+                    if v is not None:
+                        yield {'op': 'ATTR_SET', 'a': 0, 'p': ['d0'], 'name': spec.py_attr_name(a), 'value': v}
+        yield {'op': 'TO_STRING', 'a': 0, 'p': ['d0'], 'ic': False}
+    return program(), {'elements': [elem]}
+
+
+def gen_schema_name(elem, py):
+    from .world import schema_attr_name
+    return schema_attr_name(elem, py)
+
+
+# ---------------------------------------------------------------------------------- C15: two surfaces
+def wl_C15(rng, w, cfg, index):
+    kit = Kit(rng, w, cfg)
+    elem = gen.pick_elements(rng, 1, index)[0]
+    model = spec.model_for_element(elem)
+    sub = gen.sub_alphabet(rng, model)
+    # bias to translation hazards
+    hazards = [a for a in model.alpha if a in ('name', 'level', 'content', 'type', 'value') or '-' in a]
+    if hazards and rng.random() < 0.5:
+        sub = sorted(set(sub) | set(rng.sample(hazards, min(2, len(hazards)))))
+
+    def program():
+        table = [(a, d) for a, d in spec.attributes_of_element(elem).items()]
+        rng.shuffle(table)
+        attrs = {}
+        for a, d in table[:rng.randint(0, 3)]:
+            g, b = spec.exemplars(d['type'])
+            if d.get('fixed') is not None:
+                g = [d['fixed']]
+            if g:
+                attrs[spec.py_attr_name(a)] = rng.choice(b) if (b and rng.random() < 0.1) else rng.choice(g)
+        base = {'name': elem, 'value': gen.default_value(elem), 'xsd_check': True}
+        # attributes: constructor keywords on A; dot assignment on B
+        yield {'op': 'PAIR', 'step': 'create+attributes', 'first': 'explicit',
+               'explicit': [{'op': 'NEW', 'a': 0, 'doc': 'dA', 'c': dict(base, attrs=dict(attrs))}],
+               'shortcut': [{'op': 'NEW', 'a': 1, 'doc': 'dB', 'c': dict(base, attrs={})}] +
+                           [{'op': 'ATTR_SET', 'a': 1, 'p': ['dB'], 'name': k, 'value': v} for k, v in attrs.items()]}
+        if 'dA' not in w.docs or 'dB' not in w.docs:
+            return
+        A, B = w.docs['dA'], w.docs['dB']
+        for _ in range(rng.randint(2, 10)):
+            name = rng.choice(sub)
+            exA = [i for i, c in enumerate(A.children) if c.name == name]
+            exB = [i for i, c in enumerate(B.children) if c.name == name]
+            if len(exA) > 1 or len(exB) > 1:
+                continue
+            r = rng.random()
+            g, b = spec.element_value_exemplars(name)
+            if r < 0.35 and g:
+                val = rng.choice(b) if (b and rng.random() < 0.15) else rng.choice(g)
+                step = 'set-child-value'
+                if exA:
+                    ea = {'op': 'VALUE_SET', 'a': 0, 'p': ['dA', exA[0]], 'value': val}
+                else:
+                    ea = {'op': 'ADD', 'a': 0, 'p': ['dA'], 'c': {'name': name, 'value': val, 'attrs': {}, 'xsd_check': True}}
+                eb = {'op': 'DOT_SET', 'a': 1, 'p': ['dB'], 'name': name, 'v': {'kind': 'value', 'value': val}}
+            elif r < 0.65:
+                cs = kit.childspec(name)
+                step = 'set-child-element'
+                if exA:
+                    ea = {'op': 'REPLACE', 'a': 0, 'p': ['dA'], 'i': exA[0], 'c': cs}
+                else:
+                    ea = {'op': 'ADD', 'a': 0, 'p': ['dA'], 'c': cs}
+                eb = {'op': 'DOT_SET', 'a': 1, 'p': ['dB'], 'name': name, 'v': {'kind': 'element', 'c': cs}}
+            elif r < 0.85:
+                step = 'remove-child'
+                if exA:
+                    ea = {'op': 'REMOVE', 'a': 0, 'p': ['dA'], 'i': exA[0]}
+                else:
+                    ea = {'op': 'READ', 'a': 0, 'p': ['dA'], 'which': 'children_unordered'}   # explicit no-op
+                eb = {'op': 'DOT_SET', 'a': 1, 'p': ['dB'], 'name': name, 'v': {'kind': 'none'}}
+            else:
+                # reads
+                yield {'op': 'DOT_GET', 'a': 1, 'p': ['dB'], 'name': name}
+                if table and rng.random() < 0.5:
+                    yield {'op': 'ATTR_GET', 'a': 1, 'p': ['dB'], 'name': spec.py_attr_name(rng.choice(table)[0])}
+                continue
+            yield {'op': 'PAIR', 'step': step + ':' + name, 'first': rng.choice(['explicit', 'shortcut']),
+                   'explicit': [ea], 'shortcut': [eb]}
+        if rng.random() < 0.6:
+            # supply what is missing on both surfaces alike (explicit adds on A, dot assignment on B)
+            m = spec.model_for_element(elem)
+            miss = m.missing([c.name for c in A.children]) or []
+            for x in miss[:6]:
+                cs = gen.default_childspec(x)
+                if any(c.name == x for c in B.children):
+                    eb = {'op': 'ADD', 'a': 1, 'p': ['dB'], 'c': cs}
+                else:
+                    eb = {'op': 'DOT_SET', 'a': 1, 'p': ['dB'], 'name': x, 'v': {'kind': 'element', 'c': cs}}
+                yield {'op': 'PAIR', 'step': 'complete:' + x, 'first': 'explicit',
+                       'explicit': [{'op': 'ADD', 'a': 0, 'p': ['dA'], 'c': cs}], 'shortcut': [eb]}
+        yield {'op': 'PAIR', 'step': 'serialise', 'first': 'explicit',
+               'explicit': [{'op': 'TO_STRING', 'a': 0, 'p': ['dA'], 'ic': False}],
+               'shortcut': [{'op': 'TO_STRING', 'a': 1, 'p': ['dB'], 'ic': False}]}
+    return program(), {'elements': [elem], 'sub': sub}
+
+
+def w_last_macro_ops(w):
+    return []
+
+
+# ---------------------------------------------------------------------------------- C18: unchecked nodes
+def wl_C18(rng, w, cfg, index):
+    cfg = dict(cfg)
+    cfg['p_ic'] = 0.0
+    kit = Kit(rng, w, cfg)
+    elem = gen.pick_elements(rng, 1, index)[0]
+    model = spec.model_for_element(elem)
+
+    def program():
+        mode = rng.choice(['free', 'twin', 'nested'])
+        if mode == 'twin':
+            # same children in a schema-valid order to an unchecked element and to a checked twin
+            word = model.sample_word(rng, maxlen=rng.randint(1, 7))
+            kids = [kit.childspec(x, opaque=True) for x in word]
+            attrs = kit.rootspec(elem, True)['attrs']
+            yield {'op': 'NEW', 'a': 0, 'doc': 'dU', 'c': {'name': elem, 'value': gen.default_value(elem), 'attrs': attrs, 'xsd_check': False}}
+            yield {'op': 'NEW', 'a': 1, 'doc': 'dC', 'c': {'name': elem, 'value': gen.default_value(elem), 'attrs': attrs, 'xsd_check': True}}
+            if 'dU' not in w.docs or 'dC' not in w.docs:
+                return
+            ok = True
+            for k in kids:
+                yield {'op': 'ADD', 'a': 0, 'p': ['dU'], 'c': k}
+                yield {'op': 'ADD', 'a': 1, 'p': ['dC'], 'c': k}
+                if w.events[-1]['r'] != 'ok':
+                    ok = False      # checked twin rejected a valid in-order word: C02/C12 territory, skip comparison
+                    break
+            if not ok:
+                return
+            C = w.docs['dC']
+            ch = w.cheap(C)
+            if ch['od'] != list(range(len(C.children))):
+                return              # twin did not keep the order: skip
+            yield {'op': 'TO_STRING', 'a': 0, 'p': ['dU'], 'ic': False, 'c18twin': {'role': 'unchecked'}}
+            if w.events[-1]['r'] != 'ok':
+                return
+            yield {'op': 'TO_STRING', 'a': 1, 'p': ['dC'], 'ic': False, 'c18twin': {'role': 'checked'}}
+            return
+        root_checked = (mode == 'nested' and rng.random() < 0.3)
+        yield {'op': 'NEW', 'a': 0, 'doc': 'd0', 'c': dict(kit.rootspec(elem, root_checked), xsd_check=root_checked)}
+        root = w.docs.get('d0')
+        if root is None:
+            return
+        for _ in range(rng.randint(3, 12)):
+            nodes = list(root.walk())
+            unchecked = [n for n in nodes if not n.xsd_check and spec.type_kind(spec.ELEM_TYPE[n.name]) != 'simple']
+            nested_checked = [n for n in nodes if n.xsd_check and not n.fully_checked_path() and spec.model_for_element(n.name)]
+            r = rng.random()
+            if mode == 'nested' and nested_checked and r < 0.5:
+                n = rng.choice(nested_checked)
+                p = w.path_of(n)
+                m = spec.model_for_element(n.name)
+                if rng.random() < 0.6:
+                    comp = kit.compatible(n, m.alpha)
+                    if comp:
+                        yield {'op': 'ADD', 'a': 0, 'p': p, 'c': kit.childspec(rng.choice(comp), opaque=True)}
+                elif rng.random() < 0.7:
+                    bad = kit.incompatible(n, m.alpha)
+                    name = rng.choice(bad) if bad else kit.foreign_name(n)
+                    yield {'op': 'ADD', 'a': 0, 'p': p, 'c': kit.childspec(name, opaque=True), 'fault': 'rej.incompatible'}
+                else:
+                    yield {'op': 'TO_STRING', 'a': 0, 'p': p, 'ic': False}
+                continue
+            if not unchecked:
+                break
+            n = rng.choice(unchecked)
+            p = w.path_of(n)
+            if r < 0.55:
+                # any class as child, any number, any order
+                name = rng.choice(spec.ALL_ELEMENTS) if rng.random() < 0.5 else rng.choice(model.alpha)
+                if mode == 'nested' and rng.random() < 0.5 and spec.model_for_element(name) is None:
+                    name = rng.choice(spec.ELEMENT_CONTENT_ELEMENTS)
+                opaque = not (mode == 'nested' and rng.random() < 0.6)
+                cs = kit.childspec(name, opaque=opaque)
+                if not opaque:
+                    cs['kids'] = []
+                yield {'op': 'ADD', 'a': 0, 'p': p, 'c': cs}
+            elif r < 0.7 and n.children:
+                yield {'op': 'REMOVE', 'a': 0, 'p': p, 'i': rng.randrange(len(n.children))}
+            elif r < 0.8 and n.children:
+                yield {'op': 'REPLACE', 'a': 0, 'p': p, 'i': rng.randrange(len(n.children)),
+                       'c': kit.childspec(rng.choice(spec.ALL_ELEMENTS), opaque=True)}
+            else:
+                yield {'op': 'TO_STRING', 'a': 0, 'p': p, 'ic': False}
+        yield {'op': 'TO_STRING', 'a': 0, 'p': ['d0'], 'ic': False}
+    return program(), {'elements': [elem]}
